@@ -43,12 +43,32 @@ theorem ofLeaf_err {x : Option (R DVal)} {e : Fail} : ofLeaf x = .error e ↔ x 
 theorem ite_error {α} (c : Prop) [Decidable c] (a b : Fail) :
     (if c then (Except.error a : R α) else Except.error b) = Except.error (if c then a else b) := by split <;> rfl
 
+/-- a codec read fails when the visitor rejects everything the codec can hand over -/
+theorem codecRead_fails {fx : Fixes} {fmt : Int → R DVal} {v : Option Bits} {vals : List Int} {i : Nat} {t : Target}
+    (h : ∀ x, primGet fx v vals i = .ok (some x) → ∀ d, fmt x = .ok d → (accept t d).isOk = false) :
+    (codecRead fx fmt v vals i >>= accept t).isOk = false := by
+  unfold codecRead getRequired
+  cases hg : primGet fx v vals i with
+  | error e => rfl
+  | ok o =>
+    cases o with
+    | none => rfl
+    | some x =>
+      simp only [bind, Except.bind, pure, Except.pure]
+      cases hf : fmt x with
+      | error e => rfl
+      | ok d => exact h x hg d hf
+
 /-- finish a failing scalar case -/
 macro "leaf_fail" : tactic => `(tactic| (
   unfold scalar;
-  (simp_all (config := { decide := true }) [getRequired, accept, intoInt, codecRead, notImpl, bind, Except.bind, pure,
-    Except.pure, fail, rejected, R.isOk, ite_error]) <;>
-  try ((repeat' split) <;> first | rfl | (simp_all [R.isOk]; done))))
+  first
+  | (simp only []; refine codecRead_fails ?_; intro x hx d hd;
+     simp only [ownedStr, ownedBytes, bind, Except.bind] at hd;
+     split at hd <;> (try cases hd) <;> simp_all [accept, R.isOk, rejected, fail, Except.map, pure, Except.pure]; done)
+  | ((simp_all (config := { decide := true }) [getRequired, accept, intoInt, codecRead, notImpl, bind,
+      Except.bind, pure, Except.pure, fail, rejected, R.isOk, ite_error, unsupported]) <;>
+     try ((repeat' split) <;> first | rfl | (simp_all [R.isOk]; done)))))
 
 theorem prim_scalar_rej {t : Target} {m : Method} (hm : methodOf t = some m) {ty : PrimTy} {v : Option Bits} {vals : List Int}
     {i : Nat} {lv : LVal} {e : Fail} (h : decodeAt (.prim ty v vals) i = .ok lv)
@@ -85,7 +105,8 @@ theorem time_scalar_rej {t : Target} {m : Method} (hm : methodOf t = some m) {ty
     case int ity =>
       cases ity <;> cases ty <;> simp (config := { decide := true }) [castScalar, castLeaf, ofLeaf_err] at hc <;>
         (repeat' split at hc) <;> first | (simp [fail] at hc; done) | leaf_fail
-    all_goals (cases ty <;> simp [castScalar, castLeaf, ofLeaf_err] at hc)
+    all_goals (cases ty <;> simp (config := { decide := true }) [castScalar, castLeaf, ofLeaf_err] at hc <;>
+        (repeat' split at hc) <;> first | (simp [fail] at hc; done) | leaf_fail)
 
 theorem timestamp_scalar_rej {t : Target} {m : Method} (hm : methodOf t = some m) {u : TimeUnit} {tz : Option String}
     {v : Option Bits} {vals : List Int} {i : Nat} {lv : LVal} {e : Fail} (h : decodeAt (.timestamp u tz v vals) i = .ok lv)
@@ -101,7 +122,8 @@ theorem timestamp_scalar_rej {t : Target} {m : Method} (hm : methodOf t = some m
     case int ity =>
       cases ity <;> simp (config := { decide := true }) [castScalar, castLeaf, ofLeaf_err] at hc <;>
         (repeat' split at hc) <;> first | (simp [fail] at hc; done) | leaf_fail
-    all_goals (simp [castScalar, castLeaf, ofLeaf_err] at hc)
+    all_goals (simp (config := { decide := true }) [castScalar, castLeaf, ofLeaf_err] at hc <;>
+        (repeat' split at hc) <;> first | (simp [fail] at hc; done) | leaf_fail)
 
 theorem decimal_scalar_rej {t : Target} {m : Method} (hm : methodOf t = some m) {p : Nat} {s : Int}
     {v : Option Bits} {vals : List Int} {i : Nat} {lv : LVal} {e : Fail} (h : decodeAt (.decimal128 p s v vals) i = .ok lv)
@@ -110,8 +132,10 @@ theorem decimal_scalar_rej {t : Target} {m : Method} (hm : methodOf t = some m) 
   rcases decimal_get h with ⟨rfl, hg⟩ | ⟨rfl, hg⟩
   · clear h hc
     cases t <;> simp only [methodOf, Option.some.injEq, reduceCtorEq] at hm <;> subst hm <;> leaf_fail
-  · cases t <;> simp only [methodOf, Option.some.injEq, reduceCtorEq] at hm <;> subst hm <;>
-      simp [castScalar, castLeaf, ofLeaf_err] at hc
+  · clear h
+    cases t <;> simp only [methodOf, Option.some.injEq, reduceCtorEq] at hm <;> subst hm <;>
+      simp (config := { decide := true }) [castScalar, castLeaf, ofLeaf_err] at hc <;>
+        (repeat' split at hc) <;> first | (simp [fail] at hc; done) | leaf_fail
 
 theorem null_scalar_rej {t : Target} {m : Method} (hm : methodOf t = some m) {len : Nat}
     {i : Nat} {lv : LVal} {e : Fail} (h : decodeAt (.null len) i = .ok lv)
@@ -128,8 +152,10 @@ theorem bool_scalar_rej {t : Target} {m : Method} (hm : methodOf t = some m) {le
   rcases bool_get h with ⟨rfl, hg⟩ | ⟨b, rfl, hg⟩
   · clear h hc
     cases t <;> simp only [methodOf, Option.some.injEq, reduceCtorEq] at hm <;> subst hm <;> leaf_fail
-  · cases t <;> simp only [methodOf, Option.some.injEq, reduceCtorEq] at hm <;> subst hm <;>
-      simp [castScalar, castLeaf, ofLeaf_err] at hc
+  · clear h
+    cases t <;> simp only [methodOf, Option.some.injEq, reduceCtorEq] at hm <;> subst hm <;>
+      simp (config := { decide := true }) [castScalar, castLeaf, ofLeaf_err] at hc <;>
+        (repeat' split at hc) <;> first | (simp [fail] at hc; done) | leaf_fail
 
 theorem bytes_scalar_rej {t : Target} {m : Method} (hm : methodOf t = some m) {ty : BytesTy} {v : Option Bits}
     {offs : List Int} {data : Bytes} {i : Nat} {lv : LVal} {e : Fail} (h : decodeAt (.bytes ty v offs data) i = .ok lv)
@@ -141,7 +167,8 @@ theorem bytes_scalar_rej {t : Target} {m : Method} (hm : methodOf t = some m) {t
     cases t <;> simp only [methodOf, Option.some.injEq, reduceCtorEq] at hm <;> subst hm <;> leaf_fail
   · cases hty : isUtf8Ty ty <;>
     cases t <;> simp only [methodOf, Option.some.injEq, reduceCtorEq] at hm <;> subst hm <;>
-      simp [castScalar, castLeaf, ofLeaf_err, bytesVal, hty] at hc
+      simp (config := { decide := true }) [castScalar, castLeaf, ofLeaf_err, bytesVal, hty] at hc <;>
+        (repeat' split at hc) <;> first | (simp [fail] at hc; done) | leaf_fail
 
 theorem view_scalar_rej {t : Target} {m : Method} (hm : methodOf t = some m) {ty : ViewTy} {v : Option Bits}
     {views : List Nat} {buffers : List Bytes} {i : Nat} {lv : LVal} {e : Fail}
@@ -154,7 +181,8 @@ theorem view_scalar_rej {t : Target} {m : Method} (hm : methodOf t = some m) {ty
     cases t <;> simp only [methodOf, Option.some.injEq, reduceCtorEq] at hm <;> subst hm <;> leaf_fail
   · cases hty : isUtf8View ty <;>
     cases t <;> simp only [methodOf, Option.some.injEq, reduceCtorEq] at hm <;> subst hm <;>
-      simp [castScalar, castLeaf, ofLeaf_err, bytesVal, hty] at hc
+      simp (config := { decide := true }) [castScalar, castLeaf, ofLeaf_err, bytesVal, hty] at hc <;>
+        (repeat' split at hc) <;> first | (simp [fail] at hc; done) | leaf_fail
 
 theorem fsb_scalar_rej {t : Target} {m : Method} (hm : methodOf t = some m) {n : Int} {v : Option Bits}
     {data : Bytes} {i : Nat} {lv : LVal} {e : Fail} (h : decodeAt (.fixedSizeBinary n v data) i = .ok lv)
@@ -163,8 +191,10 @@ theorem fsb_scalar_rej {t : Target} {m : Method} (hm : methodOf t = some m) {n :
   rcases fsb_get h hn with ⟨rfl, hg⟩ | ⟨b, rfl, hg⟩
   · clear h hc
     cases t <;> simp only [methodOf, Option.some.injEq, reduceCtorEq] at hm <;> subst hm <;> leaf_fail
-  · cases t <;> simp only [methodOf, Option.some.injEq, reduceCtorEq] at hm <;> subst hm <;>
-      simp [castScalar, castLeaf, ofLeaf_err] at hc
+  · clear h
+    cases t <;> simp only [methodOf, Option.some.injEq, reduceCtorEq] at hm <;> subst hm <;>
+      simp (config := { decide := true }) [castScalar, castLeaf, ofLeaf_err] at hc <;>
+        (repeat' split at hc) <;> first | (simp [fail] at hc; done) | leaf_fail
 
 /-- a null dictionary slot: the key getter returns `None`, `get_str` fails -/
 theorem dictGetStr_null {ks vs : Arr} {i : Nat} (hn : new Fixes.all (.dictionary ks vs) = .ok ())
@@ -193,8 +223,10 @@ theorem dict_scalar_rej {t : Target} {m : Method} (hm : methodOf t = some m) {ks
     obtain ⟨e', hf⟩ := isOk_false_iff.1 hf
     clear h hc
     cases t <;> simp only [methodOf, Option.some.injEq, reduceCtorEq] at hm <;> subst hm <;> leaf_fail
-  · cases t <;> simp only [methodOf, Option.some.injEq, reduceCtorEq] at hm <;> subst hm <;>
-      simp [castScalar, castLeaf, ofLeaf_err] at hc
+  · clear h
+    cases t <;> simp only [methodOf, Option.some.injEq, reduceCtorEq] at hm <;> subst hm <;>
+      simp (config := { decide := true }) [castScalar, castLeaf, ofLeaf_err] at hc <;>
+        (repeat' split at hc) <;> first | (simp [fail] at hc; done) | leaf_fail
 
 /-- container columns implement no scalar method at all -/
 theorem container_scalar_fails {t : Target} (m : Method) (a : Arr) (i : Nat)
